@@ -109,7 +109,9 @@ func (o hop) sx() *sx.Node {
 
 // runHelperProgram executes the program on the real zog. usePosts: the appended things are
 // PostTransforms instead of Tests.
-func runHelperProgram(ops []hop, usePosts bool) (string, string) {
+// warm: every schema object is EXECUTED (Parse and Validate) after each step of the program, so that
+// schemas are derived from, and extended after, objects that have already been used.
+func runHelperProgram(ops []hop, usePosts, warm bool) (string, string) {
 	var fieldRan []string // "key=id"
 	var testsRan []int
 	fieldSchema := func(id int) z.ZogSchema {
@@ -181,6 +183,13 @@ func runHelperProgram(ops []hop, usePosts bool) (string, string) {
 					objs = append(objs, objs[o.i].Merge(objs[o.j]))
 				}
 			}
+			if warm {
+				for _, s := range objs {
+					var d helperDest
+					s.Parse(map[string]any{"a": 1, "b": 1, "c": 1, "d": 1}, &d)
+					s.Validate(&d)
+				}
+			}
 		}
 	}()
 	if panicked != "" {
@@ -218,7 +227,7 @@ func runHelperProgram(ops []hop, usePosts bool) (string, string) {
 
 func streamHelpers(seed uint64, n int, driver string) (*Summary, error) {
 	sum := newSummary("helpers", seed)
-	sum.Rule = "random programs (3..14 ops) over Struct / Test|PostTransform / Pick / Omit / Extend / Merge; bases are given several tests first so that their slices have spare capacity; siblings are derived from one base and extended in interleaved orders; Pick/Omit take strings, one map[string]bool, or a mixed argument list (strings, several maps, false entries for keys selected by another argument); afterwards every schema object is executed and observed; each program runs twice (Tests, then PostTransforms); non-trivial = at least two objects derived from one base, one of them extended afterwards; distinct = distinct program"
+	sum.Rule = "random programs (3..14 ops) over Struct / Test|PostTransform / Pick / Omit / Extend / Merge; bases are given several tests first so that their slices have spare capacity; siblings are derived from one base and extended in interleaved orders; Pick/Omit take strings, one map[string]bool, or a mixed argument list; a Pick in three also names keys its receiver does not have (strings, several maps, false entries for keys selected by another argument); afterwards every schema object is executed and observed; each program runs four times (Tests / PostTransforms x objects first executed at the end / every object executed after each step); non-trivial = at least two objects derived from one base, one of them extended afterwards; distinct = distinct program"
 	root := rng.New(seed)
 	var lines []string
 	var progs [][]hop
@@ -293,13 +302,26 @@ func streamHelpers(seed uint64, n int, driver string) (*Summary, error) {
 						ks = append(ks, k)
 					}
 				}
+				kept := ks
+				if r.P(1, 3) {
+					// keys the receiver does not have select nothing
+					has := map[string]bool{}
+					for _, k := range keysOf[i] {
+						has[k] = true
+					}
+					for _, k := range helperKeys {
+						if !has[k] && r.P(1, 2) {
+							ks = append(ks, k)
+						}
+					}
+				}
 				h := hop{kind: "pick", i: i, keys: ks, asMap: r.P(1, 3)}
 				if r.P(1, 3) {
 					h.argv = mixedArgs(r, ks)
 				}
 				ops = append(ops, h)
 				derivedFrom[len(keysOf)] = i
-				keysOf = append(keysOf, ks)
+				keysOf = append(keysOf, kept)
 			case 5:
 				var ks, rest []string
 				for _, k := range keysOf[i] {
@@ -351,12 +373,16 @@ func streamHelpers(seed uint64, n int, driver string) (*Summary, error) {
 			continue
 		}
 		want := sx.L(m.List[2:]...).String()
-		for _, usePosts := range []bool{false, true} {
+		for _, mode := range []struct{ usePosts, warm bool }{{false, false}, {true, false}, {false, true}, {true, true}} {
+			usePosts := mode.usePosts
 			sum.Evaluations++
-			got, pn := runHelperProgram(ops, usePosts)
+			got, pn := runHelperProgram(ops, usePosts, mode.warm)
 			what := "Tests"
 			if usePosts {
 				what = "PostTransforms"
+			}
+			if mode.warm {
+				what += ", every object executed after each step"
 			}
 			if pn != "" {
 				sum.addViolation("C16", Mismatch{Case: lines[c], What: "program panicked (" + what + "): " + pn})
